@@ -16,9 +16,11 @@ import (
 	"math/rand"
 	"os"
 	"path/filepath"
+	"runtime"
 	"sort"
 	"strings"
 	"sync"
+	"sync/atomic"
 
 	"github.com/pinealctx/neptune/ds/tree"
 	"github.com/pinealctx/neptune/ds/tree/btree"
@@ -357,9 +359,9 @@ func (s *sut) obs(full bool, hs []int, dumps []int) tr.E {
 // ------------------------------------------------------------------ statistics (evidence only)
 
 type stats struct {
-	Events, Writes, Scans, Sweeps, Changes, MaxHeight, MaxKeys, Clones, Panics int
-	Heights                                                                    map[int]int
-	Degrees                                                                    map[int]int
+	Events, Writes, Scans, Sweeps, Changes, MaxHeight, MaxKeys, Clones, Panics, RaceRounds, RaceKept int
+	Heights                                                                                          map[int]int
+	Degrees                                                                                          map[int]int
 }
 
 var st = stats{Heights: map[int]int{}, Degrees: map[int]int{}}
@@ -378,6 +380,60 @@ type runner struct {
 	last   map[int]string // structure signature per handle after its latest write
 	dead   bool
 	done   act // the action as executed (version / new handle filled in)
+	// sh: the generator's own idea of which keys each handle holds, computed from the calls it
+	// issued (never from the tree's answers); used only to bias key choice towards present keys.
+	sh []map[int]bool
+}
+
+func (r *runner) shadow(a act) {
+	for len(r.sh) < 1 {
+		r.sh = append(r.sh, map[int]bool{})
+	}
+	if a.Op == "clone" {
+		c := map[int]bool{}
+		for k := range r.sh[a.H-1] {
+			c[k] = true
+		}
+		r.sh = append(r.sh, c)
+		return
+	}
+	if a.H < 1 || a.H > len(r.sh) {
+		return
+	}
+	m := r.sh[a.H-1]
+	ext := func(max bool) (int, bool) {
+		best, ok := 0, false
+		for k := range m {
+			if !ok || (max && k > best) || (!max && k < best) {
+				best, ok = k, true
+			}
+		}
+		return best, ok
+	}
+	switch a.Op {
+	case "ins", "roi":
+		m[a.K] = true
+	case "upd":
+		if m[a.O] {
+			delete(m, a.O)
+			m[a.K] = true
+		}
+	case "upsert":
+		delete(m, a.O)
+		m[a.K] = true
+	case "del", "idel":
+		delete(m, a.K)
+	case "delmin":
+		if k, ok := ext(false); ok {
+			delete(m, k)
+		}
+	case "delmax":
+		if k, ok := ext(true); ok {
+			delete(m, k)
+		}
+	case "clear":
+		r.sh[a.H-1] = map[int]bool{}
+	}
 }
 
 func (r *runner) emitCall(a act, withObs bool) {
@@ -439,6 +495,7 @@ func (r *runner) step(a act) {
 		return
 	}
 	a = r.done
+	r.shadow(a)
 	h := a.H
 	if a.Op == "clone" {
 		h = a.H2
@@ -623,16 +680,22 @@ func randHistory(w *tr.W, rng *rand.Rand, idx, maxops, sweep int) {
 		nops = maxops * 2
 	}
 	key := func() int { return lo + rng.Intn(nkeys) }
-	present := func(h int) (int, bool) { // a key that is in handle h
-		t := r.s.hs[h-1]
-		if t.Len() == 0 {
+	present := func(h int) (int, bool) { // a key the generator believes to be in handle h
+		if h > len(r.sh) || len(r.sh[h-1]) == 0 {
 			return 0, false
 		}
-		c := contents(t)
-		if len(c) == 0 { // Len() and the contents disagree (a corrupted tree): the choice of key is only
-			return 0, false // a bias, so fall back to a random key and let TLC judge what is recorded
+		ks := make([]int, 0, len(r.sh[h-1]))
+		for k := range r.sh[h-1] {
+			ks = append(ks, k)
 		}
-		return c[rng.Intn(len(c))][0], true
+		sort.Ints(ks)
+		return ks[rng.Intn(len(ks))], true
+	}
+	believed := func(h int) int {
+		if h > len(r.sh) {
+			return 0
+		}
+		return len(r.sh[h-1])
 	}
 	handle := func() int { return 1 + rng.Intn(len(r.s.hs)) }
 	mode := rng.Intn(4) // 0 random, 1 ascending run, 2 descending run, 3 random
@@ -709,7 +772,7 @@ func randHistory(w *tr.W, rng *rand.Rand, idx, maxops, sweep int) {
 				r.step(act{Op: "idel", H: h, K: k})
 			}
 		case x < 87:
-			if len(r.s.hs) < 4 && r.s.hs[h-1].Len() > 2 {
+			if len(r.s.hs) < 4 && believed(h) > 2 {
 				r.step(act{Op: "clone", H: h})
 			} else {
 				r.step(act{Op: "len", H: h})
@@ -983,6 +1046,162 @@ func runConc(w *tr.W, rng *rand.Rand, threads, opsPer, nkeys int) {
 	w.Emit(tr.E{"ev": "final", "obs": s.obs(true, nil, []int{1})})
 }
 
+// ------------------------------------------------------------------ race rounds on the wrapper
+
+// runRaces: many tiny rounds.  A fresh wrapper holding 2..6 keys; 2 or 3 goroutines, released
+// together by a spin barrier, each issue one (sometimes two) wrapper calls that all concern ONE hot
+// key: every writer (Insert, Update, UpdateOrInsert, Delete) against every writer and against Get
+// and the four scans, on a present and on an absent hot key, plus random mixes.  inv/res carry a
+// global atomic sequence number drawn before the call starts / after it returned, so the merged
+// order is consistent with real time without any lock of the harness in the way.  Only rounds in
+// which calls really overlapped are kept; each ends with the sequential contents + dump.  TLC
+// searches for a linearization; nothing is judged here.
+func runRaces(w *tr.W, rng *rand.Rand, rounds, keep int) (int, int) {
+	writers := []string{"ins", "upd", "upsert", "del"}
+	every := []string{"ins", "upd", "upsert", "del", "get", "AscendGte", "AscendGt", "DescendLte", "DescendLt"}
+	kept, ran := 0, 0
+	const hot = 5
+	for r := 0; r < rounds && kept < keep; r++ {
+		ran++
+		s := newSut("wrap", 2)
+		ver := 0
+		mk := func(kind string, t int) act {
+			ver++
+			nk := 10 + t // the key a thread moves the hot node to: distinct per thread ...
+			if rng.Intn(4) == 0 {
+				nk = 10 // ... or contended as well
+			}
+			switch kind {
+			case "ins":
+				return act{Op: "ins", H: 1, K: hot, V: ver}
+			case "upd", "upsert":
+				return act{Op: kind, H: 1, O: hot, K: nk, V: ver}
+			case "del":
+				return act{Op: "del", H: 1, K: hot}
+			case "get":
+				return act{Op: "get", H: 1, K: hot}
+			}
+			return act{Op: "scan", H: 1, Fn: kind, P: hot, Fm: 1, Fr: []int{0}, N: []int{1, 2, 1000}[rng.Intn(3)]}
+		}
+		// prefill (sequential, recorded): 2..6 keys around the hot key, hot itself present or not
+		var hotIn bool
+		threads := 2
+		progs := make([][]act, 0, 3)
+		var pre []act
+		nfill := 2 + rng.Intn(5)
+		for _, k := range rng.Perm(9)[:nfill] {
+			if k+1 != hot {
+				ver++
+				pre = append(pre, act{Op: "ins", H: 1, K: k + 1, V: ver})
+			}
+		}
+		if r%2 == 0 {
+			c := r / 2
+			a, b := writers[c%len(writers)], every[(c/len(writers))%len(every)]
+			hotIn = (c/(len(writers)*len(every)))%3 != 2 // two rounds in three on a present key
+			progs = append(progs, []act{mk(a, 0)}, []act{mk(b, 1)})
+		} else {
+			threads = 2 + rng.Intn(2)
+			hotIn = rng.Intn(3) > 0
+			for t := 0; t < threads; t++ {
+				var pr []act
+				for i := 0; i < 1+rng.Intn(2); i++ {
+					kind := every[rng.Intn(len(every))]
+					if t == 0 && i == 0 {
+						kind = writers[rng.Intn(len(writers))]
+					}
+					pr = append(pr, mk(kind, t))
+				}
+				progs = append(progs, pr)
+			}
+		}
+		if hotIn {
+			ver++
+			pre = append(pre, act{Op: "ins", H: 1, K: hot, V: ver})
+		}
+		type sev struct {
+			seq int64
+			e   tr.E
+		}
+		prelog := make([]tr.E, 0, len(pre))
+		dead := false
+		for _, a := range pre {
+			rep, p := s.safeDo(a)
+			if p {
+				prelog = append(prelog, tr.E{"ev": "panic", "a": a.rec(), "msg": tr.Str(rep.(string))})
+				dead = true
+				break
+			}
+			prelog = append(prelog, tr.E{"ev": "callr", "a": a.rec(), "r": rep})
+		}
+		per := make([][]sev, threads)
+		if !dead {
+			var seq int64
+			var goFlag, readyCnt int32
+			var wg sync.WaitGroup
+			for t := 0; t < threads; t++ {
+				wg.Add(1)
+				go func(t int) {
+					defer wg.Done()
+					atomic.AddInt32(&readyCnt, 1)
+					for atomic.LoadInt32(&goFlag) == 0 {
+					}
+					for _, a := range progs[t] {
+						per[t] = append(per[t], sev{atomic.AddInt64(&seq, 1), tr.E{"ev": "inv", "t": t + 1, "a": a.rec()}})
+						rep, p := s.safeDo(a)
+						if p {
+							per[t] = append(per[t], sev{atomic.AddInt64(&seq, 1), tr.E{"ev": "panic", "a": a.rec(), "msg": tr.Str(rep.(string))}})
+							return
+						}
+						per[t] = append(per[t], sev{atomic.AddInt64(&seq, 1), tr.E{"ev": "res", "t": t + 1, "r": rep}})
+					}
+				}(t)
+			}
+			for atomic.LoadInt32(&readyCnt) < int32(threads) {
+				runtime.Gosched()
+			}
+			atomic.StoreInt32(&goFlag, 1)
+			wg.Wait()
+		}
+		var all []sev
+		for _, p := range per {
+			all = append(all, p...)
+		}
+		sort.Slice(all, func(i, j int) bool { return all[i].seq < all[j].seq })
+		open, overlap, panicked := 0, false, dead
+		for _, x := range all {
+			switch x.e["ev"] {
+			case "inv":
+				open++
+				if open > 1 {
+					overlap = true
+				}
+			case "res":
+				open--
+			default:
+				panicked = true
+			}
+		}
+		if !overlap && !panicked {
+			continue
+		}
+		kept++
+		w.Emit(tr.E{"ev": "reset", "api": "wrap", "deg": 2, "threads": threads, "src": "race", "lo": 1, "hi": 13})
+		for _, e := range prelog {
+			w.Emit(e)
+		}
+		for _, x := range all {
+			w.Emit(x.e)
+		}
+		if panicked {
+			st.Panics++
+			continue
+		}
+		w.Emit(tr.E{"ev": "final", "obs": s.obs(true, nil, []int{1})})
+	}
+	return ran, kept
+}
+
 // ------------------------------------------------------------------ main
 
 func main() {
@@ -995,6 +1214,8 @@ func main() {
 	npar := flag.Int("npar", 20, "parallel-clone histories")
 	nconc := flag.Int("nconc", 60, "concurrent wrapper histories")
 	nstress := flag.Int("nstress", 6, "long concurrent wrapper histories")
+	nrace := flag.Int("nrace", 20000, "race rounds on the wrapper (at most)")
+	nracekeep := flag.Int("nracekeep", 1200, "race rounds with real overlap to keep")
 	sweep := flag.Int("sweep", 4, "probability (percent) of a scan sweep after a write that changed the node structure (always one per handle at the end of a trace)")
 	statf := flag.String("stats", "", "write statistics (json) here")
 	flag.Parse()
@@ -1039,6 +1260,8 @@ func main() {
 	for i := 0; i < *nstress; i++ {
 		runConc(cw, rng, 4, 40, 10+rng.Intn(8))
 	}
+	ran, kept := runRaces(cw, rng, *nrace, *nracekeep)
+	st.RaceRounds, st.RaceKept = ran, kept
 	cw.Close()
 	st.Events = w.N() + cw.N()
 	if *statf != "" {
